@@ -20,10 +20,11 @@ type rewardGhost struct {
 	Ref     map[string]sdk.Dec // pro-rata reference: sum over blocks of mint x capacity / total capacity
 	Claimed map[string]sdk.Int // block-reward coins paid out (node -> provider in claim steps)
 	MaxStor int64
+	Base    sdk.Int // reward counter of the root state
 }
 
 func (g *rewardGhost) Clone() engine.Ghost {
-	c := &rewardGhost{Minted: g.Minted, Blocks: g.Blocks, Ref: map[string]sdk.Dec{}, Claimed: map[string]sdk.Int{}, MaxStor: g.MaxStor}
+	c := &rewardGhost{Minted: g.Minted, Blocks: g.Blocks, Ref: map[string]sdk.Dec{}, Claimed: map[string]sdk.Int{}, MaxStor: g.MaxStor, Base: g.Base}
 	for k, v := range g.Ref {
 		c.Ref[k] = v
 	}
@@ -40,7 +41,13 @@ func (g *rewardGhost) Bytes() []byte {
 type RewardOracle struct{}
 
 func (RewardOracle) InitGhost(w *world.World, ctx sdk.Context) engine.Ghost {
-	return &rewardGhost{Minted: sdk.ZeroInt(), Ref: map[string]sdk.Dec{}, Claimed: map[string]sdk.Int{}}
+	g := &rewardGhost{Minted: sdk.ZeroInt(), Ref: map[string]sdk.Dec{}, Claimed: map[string]sdk.Int{}, Base: sdk.ZeroInt()}
+	// a genesis may start with a non-zero reward counter (scenarios that begin near a halving): the counter must
+	// then equal that base plus the coins minted since
+	if pool, ok := w.App.NodeKeeper.GetPool(ctx); ok && !pool.TotalReward.Amount.IsNil() {
+		g.Base = pool.TotalReward.Amount
+	}
+	return g
 }
 
 func rewardAge(totalReward sdk.Int) uint {
@@ -202,7 +209,7 @@ func (RewardOracle) State(w *world.World, ctx sdk.Context, s *engine.State) []en
 	var out []engine.Finding
 	sn := snapOf(w, ctx, s)
 	g := s.G.(*rewardGhost)
-	if !sn.Pool.TotalReward.Amount.Equal(g.Minted) {
+	if !sn.Pool.TotalReward.Amount.Equal(g.Minted.Add(g.Base)) {
 		out = append(out, fd("C08", "reward-counter-vs-minted-total", cmp(sn.Pool.TotalReward.Amount.GT(g.Minted)), fmt.Sprintf("Pool.TotalReward=%s, coins actually minted=%s", sn.Pool.TotalReward.Amount, g.Minted)))
 	}
 	sum := sdk.ZeroDec()
